@@ -1261,13 +1261,15 @@ EDGES = ("top", "bottom", "left", "right")
 # sliver: curved raster C (2000 x 3000) and a probe raster P placed so that it reaches `depth` of its own pixels beyond the
 # apex of one edge of C, i.e. the two overlap in a thin lens along that edge (depth < 0: a gap of that many pixels)
 # -------------------------------------------------------------------------------------------------
+# National grids are not among the configurations: sliding a 2000 x 3000 raster and a second raster beyond its edge leaves
+# their valid areas (British grid: pyproj switches to another datum operation east of ~1.9 E, a 130 m step in the harness'
+# own mapping; NZTM: the rasters cross the antimeridian, where the documented lon/lat clamp applies - slice G).
 CFG_S = {  # name: (epsg a, epsg b, lon/lat window when the anchor meridian is in the middle, anchor meridian)
     "geo|albers-au": (4326, 3577, (117.0, 147.0, -40.0, -20.0), 132.0),
     "geo|laea-eu": (4326, 3035, (-5.0, 25.0, 42.0, 64.0), 10.0),
     "geo|utm33": (4326, 32633, (9.0, 21.0, 48.0, 66.0), 15.0),
     "merc|albers-au": (3857, 3577, (117.0, 147.0, -40.0, -20.0), 132.0),
     "utm55|albers-au": (32755, 3577, (141.0, 153.0, -40.0, -22.0), 147.0),
-    "geo|bng-uk": (4326, 27700, (-6.0, 2.0, 50.0, 59.0), -2.0),
 }
 C_SHAPE = (2000, 3000)
 P_SHAPES = {"small": (48, 256), "large": (1000, 2000)}  # (across the shared edge, along it)
@@ -1349,15 +1351,16 @@ def build_sliver(cfg, cside, edge, t32, mode, kpx, psize, depth):
 
 def gen_sliver(thorough):
     if thorough:
+        full = (("small", 0.5, ((None, None), (0, None), (2, None), (None, 16))), ("large", 0.5, ((None, None), (0, None))), ("small", 2.0, ((None, None),)))
         for cfg in CFG_S:
             for cside in ("a", "b"):
-                for mode, edges, ts in (("north-up", ("top", "bottom"), T32_ALL), ("turned", EDGES, T32_ODD)):
+                for mode, edges, ts, combos in (("north-up", ("top", "bottom"), T32_ALL, full),
+                                                ("turned", EDGES, T32_ODD, (("small", 0.5, ((None, None), (0, None))), ("large", 0.5, ((None, None),))))):
                     for edge in edges:
                         for t32 in ts:
                             for depth in DEPTHS_S:
                                 for direction in ("C-dst", "C-src"):
-                                    for psize, kpx, padal in (("small", 0.5, ((None, None), (0, None), (2, None), (None, 16))),
-                                                              ("large", 0.5, ((None, None), (0, None))), ("small", 2.0, ((None, None),))):
+                                    for psize, kpx, padal in combos:
                                         for pad, al in padal:
                                             yield (cfg, cside, edge, t32, mode, kpx, psize, depth, direction, pad, al)
     else:
@@ -1819,7 +1822,7 @@ def slices(tier):
                  "600-1000 px rasters in LAEA / Albers / UTM far from the meridian / Mercator vs lon/lat over the same window, both "
                  "directions: edges bulge by several pixels between five boundary samples"),
         e1.Slice("B-sliver", lambda: gen_sliver(th), run_sliver,
-                 "2000x3000 raster C (lon/lat, Mercator, Albers, LAEA, UTM, British grid) and a raster in another CRS that reaches 0.6 .. 10.4 of its "
+                 "2000x3000 raster C (lon/lat, Mercator, Albers, LAEA, UTM) and a raster in another CRS that reaches 0.6 .. 10.4 of its "
                  "pixels beyond the outermost point of one curved edge of C (or stays 0.4 / 3 px short of it): overlap is a thin lens; "
                  "apex of the edge at k/32 of its length (window slid along the edge, or the other raster turned parallel to the edge "
                  "at that point), C as source and as destination; brute force over the destination window that can need data"),
